@@ -481,8 +481,51 @@ def check_store(it, cell: Cell, frame, node, what="store"):
         raise PyRaise(ExcVal(ValueError, ("assignment destination is read-only",)), origin=frame.site("call", node) if frame else "")
 
 
+_RD32 = z3.Function("rd32", z3.RealSort(), z3.RealSort())
+_IS32 = z3.Function("is32", z3.RealSort(), z3.BoolSort())
+
+
+def rd32_axioms():
+    """rounding to single precision as an uninterpreted function: what is used is only that it is monotone, that it
+    lands on a float32 value, and that float32 values are fixed points (no magnitude of the rounding error, no
+    overflow).  Given to the solver as quantified axioms (E-matching on the few rd32 / is32 terms of a query)."""
+    a, b = z3.Reals("rd_a rd_b")
+    return [
+        z3.ForAll([a], _IS32(_RD32(a)), patterns=[_RD32(a)]),
+        z3.ForAll([a], z3.Implies(_IS32(a), _RD32(a) == a), patterns=[_RD32(a)]),
+        z3.ForAll([a, b], z3.Implies(a <= b, _RD32(a) <= _RD32(b)), patterns=[z3.MultiPattern(_RD32(a), _RD32(b))]),
+        z3.ForAll([a, b], z3.Implies(z3.And(_IS32(b), a <= b), _RD32(a) <= b), patterns=[z3.MultiPattern(_RD32(a), _IS32(b))]),
+        z3.ForAll([a, b], z3.Implies(z3.And(_IS32(b), b <= a), b <= _RD32(a)), patterns=[z3.MultiPattern(_RD32(a), _IS32(b))]),
+    ]
+
+
+def rd32(it, v):
+    """round a real-valued term to single precision; pushed through selections (ite) so that a value that IS one of
+    several float32 values is recognised as such"""
+    if it is not None and not it.path.ghost.get("__rd32_axioms__"):
+        it.path.ghost["__rd32_axioms__"] = True
+        for ax in rd32_axioms():
+            it.path.assume(ax)
+    if isinstance(v, (int, float)):
+        import numpy as _np
+
+        return float(_np.float32(v))
+    if z3.is_app(v) and v.decl().kind() == z3.Z3_OP_ITE:
+        c, x, y = v.children()
+        return z3.If(c, rd32(it, x), rd32(it, y))
+    if z3.is_app(v) and v.decl().eq(_RD32):
+        return v
+    return _RD32(ops._real(v))
+
+
+def is32(v):
+    return _IS32(ops._real(v))
+
+
 def _cast_for(cell: Cell, v):
-    """numpy same-kind cast on store: float into an int array truncates toward zero"""
+    """numpy same-kind cast on store: float into an int array truncates toward zero; into a float32 array rounds"""
+    if cell.dtype == "float32":
+        return rd32(_CUR_IT[0], v) if (is_sym(v) or isinstance(v, (int, float))) else v
     if cell.dtype == "int":
         if isinstance(v, float):
             return int(v)
@@ -492,7 +535,11 @@ def _cast_for(cell: Cell, v):
     return v
 
 
+_CUR_IT = [None]
+
+
 def setitem(it, base, idx, v, frame, node):
+    _CUR_IT[0] = it
     if isinstance(base, ListCell):
         if isinstance(base.val, list) and isinstance(idx, int):
             base.val[idx] = v
@@ -574,6 +621,7 @@ def scatter_store(it, base: Arr, idx: Vec, v, frame, node):
 
 
 def inplace_binop(it, cur, op, rhs, frame, node):
+    _CUR_IT[0] = it
     if isinstance(cur, Arr):
         check_store(it, cur.cell, frame, node, "inplace")
         sym = {ast.Add: "+", ast.Sub: "-", ast.Mult: "*"}.get(type(op))
@@ -1163,7 +1211,7 @@ def arr_attr(it, a: Arr, name):
     if name == "ndim":
         return 2 if a.col2d else 1
     if name == "dtype":
-        return Opaque("dtype:" + {"float": "float64", "int": "int64", "bool": "bool"}[a.dtype])
+        return Opaque("dtype:" + {"float": "float64", "float32": "float32", "int": "int64", "bool": "bool"}[a.dtype])
     if name == "flags":
         return Opaque("flags", a.cell)
     if name == "T":
@@ -1206,11 +1254,17 @@ def _dtype_name(dt):
 
 def arr_astype(it, a: Arr, dt, copy=True):
     nm = _dtype_name(dt)
-    cur = {"float": "float64", "int": "int64", "bool": "bool"}[a.dtype]
+    cur = {"float": "float64", "float32": "float32", "int": "int64", "bool": "bool"}[a.dtype]
     if nm in (cur, {"float64": "float", "int64": "int", "bool": "bool"}.get(cur)):
         if copy is False:
             return a
         return Arr.new(a.vec(), dtype=a.dtype)
+    if nm == "float32" and a.dtype in ("float", "int") and it.config.get("single_precision"):
+        # conversion to single precision: every element is rounded to the nearest float32 (see rd32)
+        v = a.vec()
+        return Arr.new(Vec(v.n, lambda i: rd32(it, lift(v.f(i), "real")), "real"), dtype="float32")
+    if nm in ("float64", "float") and a.dtype == "float32":
+        return Arr.new(a.vec(), dtype="float")  # widening is exact
     if nm in ("float64", "float", "float32") and a.dtype == "int":
         v = a.vec()
         return Arr.new(Vec(v.n, lambda i: lift(v.f(i), "real"), "real"))
@@ -1429,6 +1483,16 @@ def _kind_of_dtype(dtype, default="real"):
     if nm == "float32":
         raise Unsupported("single precision (outside A4)")
     raise Unsupported(f"dtype {nm}")
+
+
+def f32_array(u, name, n, region="FRESH"):
+    """a fresh single-precision array: arbitrary float32 values (is32 holds for every element)"""
+    p = u.path
+    A = z3.Array(p.fresh_name(name), z3.IntSort(), z3.RealSort())
+    v = Vec(n, lambda i: z3.Select(A, p.auto_index(i, n)), "real", arr=A, name=name)
+    p.add_ufact(UFact(1, lambda i: _IS32(v.f(i)), [(0, n)], f"{name}:float32_values"))
+    rd32(u.it, z3.RealVal(0))  # installs the axioms
+    return Arr.new(v, region=region, dtype="float32")
 
 
 def np_zeros(it, shape, dtype=None):
